@@ -180,3 +180,6 @@ Definition enc_bits (b : Z) (phi : Z -> Z) : Z -> bool :=
 (* the assignment that writes a relation on the variables of a unary mapping *)
 Definition enc_rel (off m : Z) (R : Z -> Z -> bool) : Z -> bool :=
   fun v => R ((v - off - 1) / m + 1) ((v - off - 1) mod m + 1).
+(* meaning of a generator's result: false when it raises *)
+Definition opt_hold (a : Z -> bool) (o : option (list ir)) : bool :=
+  match o with Some l => irs_hold a l | None => false end.
